@@ -159,3 +159,42 @@ def cleanup(path):
 def exc_info(e):
     return {"exc": type(e).__name__, "msg": str(e)[:160],
             "where": "".join(traceback.format_tb(e.__traceback__)[-1:]).strip().splitlines()[0] if e.__traceback__ else ""}
+
+
+class SubprocPhase:
+    """An additional model of a property run in its own process, concurrently with the main phase of the check:
+    `module.phase(tier, seed)` must return a JSON-serialisable dict."""
+
+    def __init__(self, module):
+        self.module = module
+        self.proc = None
+        self.path = None
+
+    def start(self, tier):
+        import subprocess
+        import tempfile
+        os.makedirs(os.path.join(VERIF, "build"), exist_ok=True)
+        fd, self.path = tempfile.mkstemp(prefix=f"phase-{self.module}-", suffix=".json", dir=os.path.join(VERIF, "build"))
+        os.close(fd)
+        code = (f"import json, sys\nfrom harness import {self.module} as m\nr = m.phase({tier!r}, {seed()})\n"
+                f"json.dump(r, open({self.path!r}, 'w'), default=str)\n")
+        env = dict(os.environ)
+        env["PYTHONPATH"] = os.pathsep.join(p for p in sys.path if p)
+        self.proc = subprocess.Popen([sys.executable, "-B", "-c", code], env=env, stdout=subprocess.DEVNULL,
+                                     stderr=subprocess.PIPE, text=True)
+        return self
+
+    def finish(self, timeout=7200):
+        try:
+            _, err = self.proc.communicate(timeout=timeout)
+            if self.proc.returncode != 0:
+                raise RuntimeError(f"phase {self.module} failed (exit {self.proc.returncode}):\n{err[-3000:]}")
+            with open(self.path) as fh:
+                return json.load(fh)
+        finally:
+            if self.proc.poll() is None:
+                self.proc.kill()
+            try:
+                os.unlink(self.path)
+            except OSError:
+                pass
